@@ -141,7 +141,8 @@ def perturb(rng, prof, kind):
         if 'ssh-rsa' not in p.get('keys', {}) or not any(k in gen.RSA_FAMILY for k in p['key']):
             return None
         old = p['keys']['ssh-rsa']['bits']
-        p['keys']['ssh-rsa']['bits'] = rng.choice([b for b in (1024, 2048, 3072, 4096) if b != old])
+        # another standard size, or the same size give or take a few bits (a key of another size is a different key size)
+        p['keys']['ssh-rsa']['bits'] = rng.choice([b for b in (1024, 2048, 3072, 4096) if b != old] + [old - 1, old - 7, old + 8, old - 16])
         return p, 'hksize'
     if kind in ('ca_size', 'ca_type'):
         spec = p.get('keys', {}).get('ssh-rsa-cert-v01@openssh.com')
@@ -150,7 +151,7 @@ def perturb(rng, prof, kind):
         if kind == 'ca_size':
             if spec['ca_type'] != 'ssh-rsa':
                 return None
-            spec['ca_bits'] = rng.choice([b for b in (1024, 2048, 3072, 4096) if b != spec['ca_bits']])
+            spec['ca_bits'] = rng.choice([b for b in (1024, 2048, 3072, 4096) if b != spec['ca_bits']] + [spec['ca_bits'] - 1, spec['ca_bits'] - 7, spec['ca_bits'] + 8])
             return p, 'casize'
         spec['ca_type'] = rng.choice([t for t in ('ssh-rsa', 'ssh-ed25519') if t != spec['ca_type']])
         if spec['ca_type'] == 'ssh-rsa':
